@@ -14,7 +14,8 @@
      decoding threshold") are premises, never conclusions; the harness measures the margin at the test parameter set. *)
 From Coq Require Import ZArith List Bool Lia.
 From PV Require Import Gen.C15_gen Model.C13Bdd Model.C15Uint Model.C15Cbt Model.C15Word
-  Proofs.C13Circuits Proofs.C15Layout Proofs.C15Surgery Proofs.C15WordProof Proofs.C15CbtProof Proofs.C15Blind.
+  Proofs.C13Circuits Proofs.C15Layout Proofs.C15Surgery Proofs.C15WordProof Proofs.C15CbtProof Proofs.C15Blind
+  Proofs.C15Examples.
 Import ListNotations.
 Open Scope Z_scope.
 
@@ -112,6 +113,15 @@ Theorem C15_retrieval_index : forall kw rsh mask (l : list Z), 0 <= rsh -> 0 <= 
              lget l' 0 = lget l ((kw / 2 ^ rsh) mod 2 ^ mask).
 Proof. exact retrieval_index. Qed.
 Print Assumptions C15_retrieval_index.
+
+(* glwe_blind_rotation multiplies by X^(+-((k >> bit_rsh) mod 2^bit_mask) << bit_lsh) (negacyclic, every coefficient) *)
+Theorem C15_blind_rotation_amount : forall n kw (sign : bool) rsh mask lsh (a : poly),
+  0 < n -> 0 <= rsh -> 0 <= mask -> 0 <= lsh -> rsh + mask <= 32 ->
+  exists r, glwe_blind_rotation n (bits_of 32 kw) sign rsh mask lsh a = Some r /\
+            forall j, 0 <= j < n ->
+              r j = p_rot n ((if sign then 1 else -1) * (((kw / 2 ^ rsh) mod 2 ^ mask) * 2 ^ lsh)) a j.
+Proof. exact blind_rotation_amount. Qed.
+Print Assumptions C15_blind_rotation_amount.
 
 (* the streaming GLWEBlindRetriever and the reverse butterfly are covered by the correspondence check only *)
 Definition C15_retriever_index_full : Prop := forall size kw offset (data : list Z),
@@ -275,3 +285,23 @@ Proof. vm_compute. auto. Qed.
 Example C15_ex_selection :
   glwe_blind_selection 32 (bits_of 32 (5 * 8)) 3 3 (fm_set (fm_set fm_empty 5 (Some 77)) 2 (Some 11)) = Some 77.
 Proof. vm_compute. reflexivity. Qed.
+
+(* the hypotheses of C15_word_op_correct are satisfiable: the noise-free ideal scheme (a ciphertext is its ideal
+   plaintext, cmux t f s = if s then t else f, ...) meets all of them (Proofs/C15Examples.v: ideal_word_hyps), and the
+   theorem then gives, for all words and all ten operations: *)
+Example C15_ex_word_op_hypotheses_satisfiable : forall logn, 5 <= logn -> forall (o : wop) a b,
+  0 <= a < 2 ^ 32 -> 0 <= b < 2 ^ 32 ->
+  p_dec (std_wty 2) logn
+    (fst (hop2 poly bool i_cmux (p_const 0) (p_const 1) Z (i_get_lwe logn) i_cbt (i_pack logn) (wop_circ o)
+            (p_enc (std_wty 2) logn a) (p_enc (std_wty 2) logn b))) = wop_fun o a b.
+Proof. exact ideal_word_op. Qed.
+
+(* likewise for C15_circuit_bootstrap_cells *)
+Example C15_ex_cbt_hypotheses_satisfiable : forall logn base2k dnum rank expo ld lgo, 0 <= dnum -> forall m,
+  0 <= m < 2 ^ ld -> cbt_rows_ok logn base2k dnum expo ld lgo m = true ->
+  forall row col, 0 <= row < dnum -> 0 <= col <= rank ->
+    j_cell logn base2k dnum
+      (cbt_ct Z poly (list poly) (j_blind_rotate logn base2k dnum expo ld) (p_rot (2 ^ logn)) (p_trace (2 ^ logn))
+              (j_post logn dnum ld lgo) j_expand logn dnum expo ld m)
+      row col (cand logn expo lgo m).
+Proof. exact ideal_cbt_cells. Qed.
